@@ -26,7 +26,7 @@ type caseC07dec struct {
 }
 
 func genScalarBytes(t *rapid.T) []byte {
-	switch rapid.IntRange(0, 9).Draw(t, "bytesKind") {
+	switch gen.Pick(t, "bytesKind", 10) {
 	case 8: // n with several 64-bit limbs perturbed at once
 		return ref.Bytes32(gen.PerturbWords(t, ref.N, 64))
 	case 9: // the same at 32-bit granularity
@@ -86,7 +86,7 @@ func genScalarBytes(t *rapid.T) []byte {
 	case 6:
 		return gen.Bytes(0, 80).Draw(t, "rnd")
 	default:
-		return gen.Bytes(32, 32).Draw(t, "rnd32")
+		return gen.RandBytes(t, "rnd32", 32)
 	}
 }
 
@@ -210,7 +210,13 @@ var c07enc = gen.Register(&gen.Check[caseC07enc]{
 	Weight: 0.5,
 	Gen:    func(t *rapid.T) caseC07enc { return caseC07enc{S: SVGen().Draw(t, "s")} },
 	Fixed: func() []caseC07enc {
-		return []caseC07enc{{SV{Hex: gen.H(new(big.Int))}}, {SV{Hex: gen.H(bigOne)}}, {SV{Hex: gen.H(nm1)}}, {SV{Hex: gen.H(big.NewInt(1)), Mont: true}}}
+		out := []caseC07enc{{SV{Hex: gen.H(new(big.Int))}}, {SV{Hex: gen.H(bigOne)}}, {SV{Hex: gen.H(nm1)}}, {SV{Hex: gen.H(big.NewInt(1)), Mont: true}}}
+		for _, m := range gen.WordProducts(new(big.Int), 64, func(w, mask uint64) []uint64 { return gen.LimbPatterns }) {
+			if m.Cmp(ref.N) < 0 {
+				out = append(out, caseC07enc{SV{Hex: gen.H(m), Mont: true}})
+			}
+		}
+		return out
 	},
 	Required: []string{"mont-domain", "leading-zero-byte"},
 	Run: func(c caseC07enc, o *gen.Obs) error {
